@@ -46,3 +46,32 @@ Print Assumptions C08_write_in_bounds.
 Theorem C08_flat_js_is_documented : forall t, wf t = true -> okf t = true -> flat_js_top t = flat_doc_top t.
 Proof. exact flat_js_is_documented. Qed.
 Print Assumptions C08_flat_js_is_documented.
+
+(* ---------- the receive buffer of an optional / fallible struct return (Layout/Result.v) ---------- *)
+From DV Require Import Layout.Result.
+
+(* JS allocates the buffer with the alignment of DiplomatResult<T, E>, large enough to hold the flag, and reads the flag
+   at the offset repr(C) gives it: behind the union, whose size is that of the larger payload rounded up to the
+   common alignment *)
+Theorem C08_result_buffer_is_reprC : forall t e, sa_good t -> sa_good e ->
+  fst t <= res_flag_off t e /\ fst e <= res_flag_off t e /\
+  res_flag_off t e mod res_align t e = 0 /\
+  js_flag_off (js_recv t e) = res_flag_off t e /\
+  res_flag_off t e < fst (js_recv t e) /\ fst (js_recv t e) <= res_size t e /\
+  snd (js_recv t e) = res_align t e.
+Proof. exact js_recv_is_reprC. Qed.
+Print Assumptions C08_result_buffer_is_reprC.
+
+(* the computation as it stood before the repair (largest payload + 1, aligned like the success type) is wrong for
+   Result<{u8;5}, {u32}>, and the repair changes no buffer that was right *)
+Theorem C08_result_buffer_unrepaired_refuted : exists t e, sa_good t /\ sa_good e /\
+  js_flag_off (js_recv_unrepaired t e) <> res_flag_off t e /\
+  fst (js_recv_unrepaired t e) <= res_flag_off t e /\ snd (js_recv_unrepaired t e) <> res_align t e.
+Proof. exact unrepaired_refuted. Qed.
+Print Assumptions C08_result_buffer_unrepaired_refuted.
+
+Theorem C08_result_buffer_repair_is_conservative : forall t e,
+  0 < res_align t e -> N.max (fst t) (fst e) mod res_align t e = 0 -> snd e <= snd t ->
+  js_recv_unrepaired t e = js_recv t e.
+Proof. exact repair_is_conservative. Qed.
+Print Assumptions C08_result_buffer_repair_is_conservative.
